@@ -170,6 +170,40 @@ def rule_thread(ctx, rep):
             )
 
 
+def rule_flag_stored(ctx, rep):
+    """Part of R-DRYRUN-THREAD: an object whose methods read `self.dry_run` got that attribute from its constructor's
+    dry_run parameter on every path (otherwise the class-level default -- False, a real run -- is what the guards test)."""
+    from ..flow import FlowAnalysis, has_event
+
+    classes = set()
+    for fn in ctx.prog.live_functions():
+        if fn.cls is None:
+            continue
+        for n in walk_no_nested(fn.node):
+            if isinstance(n, ast.Attribute) and n.attr == "dry_run" and isinstance(n.value, ast.Name) and n.value.id == "self" and isinstance(n.ctx, ast.Load):
+                classes.add(fn.cls.qname)
+    for cq in sorted(classes):
+        init = ctx.prog.lookup_method(cq, "__init__")
+        if init is None:
+            rep.check("R-DRYRUN-THREAD", cq, ctx.prog.classes[cq].loc(), False, "flag-stored", "class reads self.dry_run but has no __init__ that sets it")
+            continue
+        r = ctx.resolver(init)
+        stores = {id(n.value) for n in walk_no_nested(init.node) if isinstance(n, (ast.Assign, ast.AnnAssign)) and n.value is not None
+                  and any(isinstance(t, ast.Attribute) and t.attr == "dry_run" and isinstance(t.value, ast.Name) and t.value.id == "self" for t in (n.targets if isinstance(n, ast.Assign) else [n.target]))
+                  and is_dry_expr(n.value, r) and not isinstance(n.value, ast.Attribute)}
+        # events are attached to calls; use the statement-level scan: every normal exit of __init__ must be preceded by the store
+        store_stmts = [n for n in walk_no_nested(init.node) if isinstance(n, (ast.Assign, ast.AnnAssign)) and n.value is not None and id(n.value) in stores]
+        ok = False
+        if store_stmts:
+            # the store dominates the exits iff it is a top-level statement of __init__ not preceded by a return
+            body = init.node.body
+            idx = [i for i, st in enumerate(body) if st in store_stmts]
+            ok = bool(idx) and not any(isinstance(x, ast.Return) for st in body[: idx[0]] for x in ast.walk(st))
+        rep.check("R-DRYRUN-THREAD", init.qname, init.loc(store_stmts[0]) if store_stmts else init.loc(), ok, "flag-stored",
+                  "`self.dry_run` is read by this class's methods but __init__ does not store its dry_run parameter there on every path: "
+                  "the guards would test the class-level default (False: a real run)")
+
+
 def _is_logging(st: ast.stmt) -> bool:
     return isinstance(st, ast.Expr) and isinstance(st.value, ast.Call) and (dotted_name(st.value.func) or "").startswith(("logger.", "logging."))
 
@@ -401,6 +435,7 @@ def check(ctx, rep):
     )
     rule_guard(ctx, rep)
     rule_thread(ctx, rep)
+    rule_flag_stored(ctx, rep)
     rule_only_writes(ctx, rep)
     rep.not_covered += [
         "equality of dry and real reports beyond 'the flag influences nothing but writes' (I/O failures during the real write)",
